@@ -389,8 +389,57 @@ def _check_dispatch_pairing(ctx: RuleCtx, col: Collector, f: FuncInfo, call_attr
 
 
 # -------------------------------------------------------------------------------------- skip when unseeded
-def _none_test_kind(test: ast.AST) -> Optional[str]:
+def _flag_means_some_set(fn: ast.AST, name: str) -> Optional[bool]:
+    """A boolean local that records whether some element was not None: True when `name` starts False and is only set True
+    under an `<x> is not None` test (any_set); False for the mirrored flag (starts True, set False there: all_none);
+    None when `name` is not such a flag."""
+    defs = [n for n in ast.walk(fn) if isinstance(n, ast.Assign) and len(n.targets) == 1 and isinstance(n.targets[0], ast.Name)
+            and n.targets[0].id == name]
+    if len(defs) < 2 or not all(isinstance(d.value, ast.Constant) and isinstance(d.value.value, bool) for d in defs):
+        return None
+    others = [n for n in ast.walk(fn) if isinstance(n, ast.Name) and n.id == name and isinstance(n.ctx, ast.Store)]
+    if len(others) != len(defs):
+        return None
+
+    def under_not_none(d) -> bool:
+        p = getattr(d, "_parent", None)
+        child = d
+        while p is not None and p is not fn:
+            if isinstance(p, ast.If):
+                t = p.test
+                is_not = isinstance(t, ast.Compare) and len(t.ops) == 1 and isinstance(t.comparators[0], ast.Constant) and \
+                    t.comparators[0].value is None
+                if is_not and ((isinstance(t.ops[0], ast.IsNot) and child in p.body) or (isinstance(t.ops[0], ast.Is) and child in p.orelse)):
+                    return True
+            child, p = p, getattr(p, "_parent", None)
+        return False
+    init = [d for d in defs if not under_not_none(d)]
+    sets = [d for d in defs if under_not_none(d)]
+    if len(init) != 1 or not sets:
+        return None
+    iv = init[0].value.value
+    if all(d.value.value == (not iv) for d in sets):
+        return (not iv)          # init False / set True -> "some set" flag ; init True / set False -> "all none" flag
+    return None
+
+
+def _none_test_kind(test: ast.AST, fn: Optional[ast.AST] = None) -> Optional[str]:
     """'all-none' for `all([x is None for x in S])`-like tests (possibly and-ed with others), 'is-none:<x>'."""
+    # not any(x is not None for x in S)  /  not any_set  /  all_none   (flags gathered in a loop)
+    for n in ast.walk(test):
+        if isinstance(n, ast.UnaryOp) and isinstance(n.op, ast.Not):
+            o = n.operand
+            if isinstance(o, ast.Call) and U(o.func).split(".")[-1] == "any" and o.args and isinstance(o.args[0], (ast.ListComp, ast.GeneratorExp)):
+                e = o.args[0].elt
+                if isinstance(e, ast.Compare) and isinstance(e.ops[0], ast.IsNot) and isinstance(e.comparators[0], ast.Constant) and \
+                        e.comparators[0].value is None:
+                    return "all-none"
+            if isinstance(o, ast.Name) and fn is not None and _flag_means_some_set(fn, o.id) is True:
+                return "all-none"
+        if isinstance(n, ast.Name) and fn is not None and _flag_means_some_set(fn, n.id) is False:
+            par = getattr(n, "_parent", None)
+            if not (isinstance(par, ast.UnaryOp) and isinstance(par.op, ast.Not)):
+                return "all-none"
     for n in ast.walk(test):
         if isinstance(n, ast.Call) and U(n.func).split(".")[-1] == "all" and n.args:
             a = n.args[0]
@@ -404,13 +453,13 @@ def _none_test_kind(test: ast.AST) -> Optional[str]:
     return None
 
 
-def _guarded_by_skip(cfg: CFG, target: Node, kind_pred) -> Optional[Node]:
+def _guarded_by_skip(cfg: CFG, target: Node, kind_pred, fn: Optional[ast.AST] = None) -> Optional[Node]:
     """A TEST node t of the wanted kind such that `target` is dominated by t and is not reachable from t's
     true-branch (the true branch leaves the function)."""
     for t in cfg.dominators().get(target, ()):
         if t.kind != TEST or t.ast is None:
             continue
-        k = _none_test_kind(t.ast)
+        k = _none_test_kind(t.ast, fn)
         if k is None or not kind_pred(k):
             continue
         tsucc = [s for s, lab in t.succ if lab == "T"]
@@ -442,7 +491,7 @@ def r_skip_unseeded(ctx: RuleCtx, col: Collector):
         if not targets:
             raise AnalysisError(f"{f.short}: cannot locate the call that computes the input sensitivities")
         for nd, x in targets:
-            t = _guarded_by_skip(cfg, nd, lambda k: k == "all-none")
+            t = _guarded_by_skip(cfg, nd, lambda k: k == "all-none", f.node)
             if t is not None:
                 col.ok(where_of(f), f.rel, line_of(x), stmt_key(x), f"skipped when '{U(t.ast)}'")
             else:
@@ -556,6 +605,32 @@ def r_seed_order(ctx: RuleCtx, col: Collector):
                         ok = True
                     else:
                         why = f"collected list '{U(lc)}' is not [s.{attr} for s in self.{container}]"
+                elif isinstance(src, ast.Name) and len(defs) == 1 and isinstance(defs[0], ast.List) and not defs[0].elts:
+                    # built by appending inside one full forward loop over the container:
+                    #     L = []; for s in self.<container>: [v = s.<attr>;] L.append(s.<attr> | v)
+                    apps = [x for x in ast.walk(f.node) if isinstance(x, ast.Call) and isinstance(x.func, ast.Attribute) and x.func.attr in
+                            ("append", "extend", "insert") and norm(x.func.value) == src.id]
+                    lp = None
+                    if len(apps) == 1 and apps[0].func.attr == "append" and len(apps[0].args) == 1:
+                        p_ = getattr(apps[0], "_parent", None)
+                        while p_ is not None and not isinstance(p_, ast.For):
+                            if isinstance(p_, (ast.If, ast.While, ast.Try, ast.FunctionDef)):
+                                p_ = None
+                                break
+                            p_ = getattr(p_, "_parent", None)
+                        lp = p_
+                    if lp is not None and norm(lp.iter) == f"{selfn}.{container}" and isinstance(lp.target, ast.Name) and not lp.orelse and \
+                            not any(isinstance(x, (ast.Break, ast.Continue)) for x in ast.walk(lp)):
+                        arg = apps[0].args[0]
+                        want = f"{lp.target.id}.{attr}"
+                        vdefs = [d.value for d in ast.walk(lp) if isinstance(d, ast.Assign) and len(d.targets) == 1 and
+                                 isinstance(arg, ast.Name) and norm(d.targets[0]) == arg.id]
+                        if norm(arg) == want or (len(vdefs) == 1 and norm(vdefs[0]) == want):
+                            ok = True
+                        else:
+                            why = f"the loop appends '{U(arg)}', not {want}"
+                    else:
+                        why = "the collected list is not filled by one append in a full loop over the signals"
                 else:
                     why = "the collected list has no single defining comprehension"
             if ok:
